@@ -4,9 +4,9 @@
 # the feature, and the resulting tree is diffed against /repo. Every check must be silent on each result.
 set -e
 out=$(cd "$(dirname "$0")" && pwd)
-mk() { # name seed-id fixup-script
+mk() { # name seed-id fixup-script   (seed under /verif/seeded or /verif/seeded/_not_ingested)
   s=$(mktemp -d /tmp/right.XXXXXX); rsync -a --exclude .git /repo/ "$s/a/"; cp -r "$s/a" "$s/b"
-  (cd "$s/b" && patch -p1 -s --no-backup-if-mismatch < /verif/seeded/$2/patch.diff && python3 "$out/$3")
+  (cd "$s/b" && patch -p1 -s --no-backup-if-mismatch < $( [ -f /verif/seeded/$2/patch.diff ] && echo /verif/seeded/$2/patch.diff || echo /verif/seeded/_not_ingested/$2/patch.diff ) && python3 "$out/$3")
   (cd "$s/b" && GOFLAGS=-mod=mod GOPROXY=off GOSUMDB=off GOTOOLCHAIN=local go build ./... ) || { echo "BUILD FAILS: $1"; }
   (cd "$s" && diff -ruN a b > "$out/$1.diff" || true)
   rm -rf "$s"
@@ -57,3 +57,13 @@ mk d43_from_children_by_index       C15-from-children-shared-loop-variable      
 mk d44_release_resets_then_pools    C10-newparser-pooled-release-keeps-options  fix_c10j.py
 mk d45_indices_cleared_and_emptied  C07-subscript-indices-cleared-not-truncated fix_c07j.py
 mk d46_leading_word_any_space       C19-lookslikesql-newline-after-keyword      fix_c19j.py
+mk d47_tautology_checked_assertions C01-tautology-string-assert-on-null        fix_c01k.py
+mk d48_bom_skipped_in_both_loops    C07-bom-skipped-in-tokenize-only           fix_c07k.py
+mk d49_positions_dropped_or_adopted C08-positions-adopted-only-when-aligned    fix_c08k.py
+mk d50_wraperror_borrows_keeps_cause C11-wraperror-borrows-and-drops-cause     fix_c11k.py
+mk d51_sync_show_describe_explain   C12-sync-keywords-include-replace          fix_c12k.py
+mk d52_nul_guard_after_input_set    C13-nul-guard-locates-in-stale-input       fix_c13k.py
+mk d55_batch_lines_follow_edits     C18-batch-update-stale-lines               fix_c18k.py
+mk d56_tautology_excludes_null_only C16-tautology-skips-empty-strings          fix_c16k.py
+mk d57_file_args_deduped_exact      C19-file-args-deduped-case-folded          fix_c19k.py
+mk d58_cr_lf_crlf_line_starts       C05-cr-line-starts-crlf-offset             fix_c05k.py
